@@ -715,3 +715,172 @@ End ForWalk.
 Lemma shrink_walk_walk2_nil l r k :
   shrink_walk l r k [] = res_map (fun p => from_opt [] (snd p)) (walk2 l r k None).
 Proof. exact (shrink_walk_walk2 l k r None []). Qed.
+
+(* ------------------------------------------------------------------ mutInsert: building the new subtree *)
+(* (a) in prefix order: the loop appends a fresh terminal per argument, or the old subtree at `position` *)
+Section ForInsertAppend.
+  Variable ps : pset.
+  Variable old : list node.
+  Variable position : nat.
+  Variable body : Z * ty -> list node -> M (list node).
+  Hypothesis Hbody : forall i a acc ds,
+    body (Z.of_nat i, a) acc ds =
+    (if Nat.eqb i position then ret (acc ++ old)
+     else bind (d_choice (terms ps a)) (fun t => bind (instantiate t) (fun t' => ret (acc ++ [t'])))) ds.
+  Lemma for_insert_append : forall args k acc ds,
+    for_each (map zfst (combine (seq k (length args)) args)) body acc ds =
+    bind (insert_fill ps old position k args) (fun r => ret (acc ++ r)) ds.
+  Proof.
+    induction args as [|a r IH]; intros k acc ds; cbn [length seq combine map for_each insert_fill].
+    - unfold bind, ret. now rewrite app_nil_r.
+    - unfold zfst at 1. cbn [fst snd]. unfold bind in IH |- *. rewrite Hbody.
+      destruct (Nat.eqb k position).
+      + unfold ret at 1. rewrite IH.
+        destruct (insert_fill ps old position (S k) r ds) as [[rest ds1]|]; [|reflexivity].
+        unfold ret. now rewrite app_assoc.
+      + unfold bind. destruct (d_choice (terms ps a) ds) as [[t ds1]|]; [|reflexivity].
+        destruct (instantiate t ds1) as [[t' ds2]|]; [|reflexivity].
+        unfold ret at 1. rewrite IH.
+        destruct (insert_fill ps old position (S k) r ds2) as [[rest ds3]|]; [|reflexivity].
+        unfold ret. now rewrite <- app_assoc.
+  Qed.
+End ForInsertAppend.
+
+(* (b) with placeholders: [None] * n, every position but `position` set to a fresh terminal, then the old subtree
+   spliced in at `position` and the new root inserted in front *)
+Fixpoint fill_opts (ps : pset) (position i : nat) (args : list ty) : M (list (option node)) :=
+  match args with
+  | [] => ret []
+  | a :: r =>
+    if Nat.eqb i position then bind (fill_opts ps position (S i) r) (fun rest => ret (None :: rest))
+    else bind (d_choice (terms ps a)) (fun t => bind (instantiate t) (fun t' =>
+         bind (fill_opts ps position (S i) r) (fun rest => ret (Some t' :: rest))))
+  end.
+
+Lemma py_set_mid' {A} (pre : list A) x r v (i : Z) : i = Z.of_nat (length pre) ->
+  py_set (pre ++ x :: r) i v = Some (pre ++ v :: r).
+Proof. intros ->. apply py_set_mid. Qed.
+
+Section ForFill.
+  Variable ps : pset.
+  Variable position : nat.
+  Variable body : Z * ty -> list (option node) -> M (list (option node)).
+  Hypothesis Hbody : forall i a ns ds,
+    body (Z.of_nat i, a) ns ds =
+    (if Nat.eqb i position then ret ns
+     else bind (d_choice (terms ps a)) (fun t => bind (instantiate t) (fun t' =>
+          list_setitem ns (Z.of_nat i) (Some t')))) ds.
+  Lemma for_fill : forall args pre ds,
+    for_each (map zfst (combine (seq (length pre) (length args)) args)) body (pre ++ repeat None (length args)) ds =
+    bind (fill_opts ps position (length pre) args) (fun r => ret (pre ++ r)) ds.
+  Proof.
+    induction args as [|a r IH]; intros pre ds; cbn [length seq combine map for_each fill_opts repeat].
+    - unfold bind, ret. reflexivity.
+    - unfold zfst at 1. cbn [fst snd]. unfold bind in IH |- *. rewrite Hbody.
+      destruct (Nat.eqb (length pre) position).
+      + unfold ret at 1.
+        replace (pre ++ None :: repeat None (length r)) with ((pre ++ [None]) ++ repeat None (length r))
+          by (now rewrite <- app_assoc).
+        replace (S (length pre)) with (length (pre ++ [@None node])) by (rewrite app_length; cbn; lia).
+        rewrite IH. unfold bind.
+        destruct (fill_opts ps position (length (pre ++ [None])) r ds) as [[rest ds1]|]; [|reflexivity].
+        unfold ret. now rewrite <- app_assoc.
+      + unfold bind. destruct (d_choice (terms ps a) ds) as [[t ds1]|]; [|reflexivity].
+        destruct (instantiate t ds1) as [[t' ds2]|]; [|reflexivity].
+        unfold list_setitem. rewrite py_set_mid. unfold ret at 1.
+        replace (pre ++ Some t' :: repeat None (length r)) with ((pre ++ [Some t']) ++ repeat None (length r))
+          by (now rewrite <- app_assoc).
+        replace (S (length pre)) with (length (pre ++ [Some t'])) by (rewrite app_length; cbn; lia).
+        rewrite IH. unfold bind.
+        destruct (fill_opts ps position (length (pre ++ [Some t'])) r ds2) as [[rest ds3]|]; [|reflexivity].
+        unfold ret. now rewrite <- app_assoc.
+  Qed.
+End ForFill.
+
+Lemma unwrap_all_some {A} (l : list A) ds : unwrap_all (map Some l) ds = ret l ds.
+Proof.
+  revert ds. induction l as [|x l IH]; intro ds; cbn [map unwrap_all]; [reflexivity|].
+  unfold bind. rewrite IH. reflexivity.
+Qed.
+
+Lemma unwrap_all_app_some {A} (l : list A) (r : list (option A)) ds :
+  unwrap_all (map Some l ++ r) ds = bind (unwrap_all r) (fun r' => ret (l ++ r')) ds.
+Proof.
+  revert ds. induction l as [|x l IH]; intro ds; cbn [map app unwrap_all].
+  - unfold bind, ret. destruct (unwrap_all r ds) as [[a d]|]; reflexivity.
+  - unfold bind in IH |- *. rewrite IH. destruct (unwrap_all r ds) as [[a d]|]; reflexivity.
+Qed.
+
+(* past the insertion point: only fresh terminals *)
+Lemma insert_fill_past ps old position : forall args i ds, (position < i)%nat ->
+  insert_fill ps old position i args ds = bind (fill_opts ps position i args) unwrap_all ds.
+Proof.
+  induction args as [|a r IH]; intros i ds Hi; cbn [insert_fill fill_opts]; [reflexivity|].
+  replace (Nat.eqb i position) with false by (symmetry; apply Nat.eqb_neq; lia).
+  unfold bind in IH |- *.
+  destruct (d_choice (terms ps a) ds) as [[t ds1]|]; [|reflexivity].
+  destruct (instantiate t ds1) as [[t' ds2]|]; [|reflexivity].
+  rewrite IH by lia. destruct (fill_opts ps position (S i) r ds2) as [[rest ds3]|]; [|reflexivity].
+  unfold ret. cbn [unwrap_all]. unfold bind. destruct (unwrap_all rest ds3) as [[x d]|]; reflexivity.
+Qed.
+
+(* up to the insertion point: the placeholder left at `position` is where the old subtree goes *)
+Lemma insert_fill_opts ps old position : forall args i ds, (i <= position < i + length args)%nat ->
+  insert_fill ps old position i args ds =
+  bind (fill_opts ps position i args)
+       (fun R => unwrap_all (firstn (position - i) R ++ map Some old ++ skipn (position - i + 1) R)) ds.
+Proof.
+  induction args as [|a r IH]; intros i ds Hi; cbn [length] in Hi; [lia|].
+  cbn [insert_fill fill_opts].
+  destruct (Nat.eqb i position) eqn:E.
+  - apply Nat.eqb_eq in E. subst i. rewrite Nat.sub_diag. cbn [Nat.add].
+    unfold bind. rewrite insert_fill_past by lia. unfold bind.
+    destruct (fill_opts ps position (S position) r ds) as [[rest ds1]|]; [|reflexivity].
+    unfold ret at 2. cbn [firstn skipn app]. rewrite unwrap_all_app_some. unfold bind.
+    destruct (unwrap_all rest ds1) as [[x d]|]; reflexivity.
+  - apply Nat.eqb_neq in E. unfold bind in IH |- *.
+    destruct (d_choice (terms ps a) ds) as [[t ds1]|]; [|reflexivity].
+    destruct (instantiate t ds1) as [[t' ds2]|]; [|reflexivity].
+    rewrite IH by lia. destruct (fill_opts ps position (S i) r ds2) as [[rest ds3]|]; [|reflexivity].
+    unfold ret at 2.
+    replace (position - i)%nat with (S (position - S i)) by lia.
+    cbn [firstn skipn app Nat.add unwrap_all]. unfold bind.
+    replace (position - S i + 1)%nat with (S (position - S i)) by lia.
+    destruct (unwrap_all (firstn (position - S i) rest ++ map Some old ++ skipn (S (position - S i)) rest) ds3)
+      as [[x d]|]; reflexivity.
+Qed.
+
+Lemma list_mul_none_len {A} (n : nat) : list_mul [@None A] (Z.of_nat n) = repeat None n.
+Proof. apply list_mul_single. Qed.
+
+Lemma setslice_nat {A} (l v : list A) (p : nat) :
+  setslice l (Some (Z.of_nat p)) (Some (Z.of_nat p + 1)) v = firstn p l ++ v ++ skipn (p + 1) l.
+Proof.
+  unfold setslice, py_slice_assign, slice_adjust, PyList.zlen. cbn [Z.ltb Z.compare].
+  replace (Z.of_nat p <? 0) with false by lia. replace (Z.of_nat p + 1 <? 0) with false by lia.
+  destruct (Nat.leb p (length l)) eqn:E.
+  - apply Nat.leb_le in E. rewrite (Z.min_l (Z.of_nat p)) by lia.
+    destruct (Nat.leb (p + 1) (length l)) eqn:E2.
+    + apply Nat.leb_le in E2. rewrite (Z.min_l (Z.of_nat p + 1)) by lia.
+      rewrite Z.max_r by lia. rewrite Nat2Z.id. replace (Z.to_nat (Z.of_nat p + 1)) with (p + 1)%nat by lia. reflexivity.
+    + apply Nat.leb_gt in E2. rewrite (Z.min_r (Z.of_nat p + 1)) by lia.
+      rewrite Z.max_r by lia. rewrite !Nat2Z.id. rewrite (skipn_all2 l) by lia. rewrite (skipn_all2 l) by lia. reflexivity.
+  - apply Nat.leb_gt in E. rewrite (Z.min_r (Z.of_nat p)) by lia. rewrite (Z.min_r (Z.of_nat p + 1)) by lia.
+    rewrite Z.max_l by lia. rewrite !Nat2Z.id. rewrite (firstn_all2 l) by lia.
+    rewrite (firstn_all2 l) by lia. rewrite !(skipn_all2 l) by lia. reflexivity.
+Qed.
+
+Lemma list_insert_0 {A} (l : list A) x : list_insert l 0 x = x :: l.
+Proof. reflexivity. Qed.
+
+Lemma positions_lt t args i : In i (positions t args) -> (i < length args)%nat.
+Proof.
+  unfold positions, enumerate. intro H. apply in_map_iff in H. destruct H as ([j a] & <- & H).
+  apply filter_In in H. destruct H as [H _]. apply in_combine_l in H. apply in_seq in H. cbn [fst]. lia.
+Qed.
+
+Lemma filter_enum_lt {A} (P : nat * A -> bool) (args : list A) i a :
+  In (i, a) (filter P (combine (seq 0 (length args)) args)) -> (i < length args)%nat.
+Proof.
+  intro H. apply filter_In in H. destruct H as [H _]. apply in_combine_l in H. apply in_seq in H. lia.
+Qed.
